@@ -17,7 +17,7 @@ def main():
         if event == "open" and args and isinstance(args[0], str):
             m = args[1]
             if isinstance(m, str) and any(ch in m for ch in "wax+"):
-                writes.append(os.path.abspath(args[0]))
+                writes.append(os.path.realpath(args[0]))
     sys.addaudithook(hook)
     if walk_seed:
         real_walk = os.walk
@@ -71,6 +71,18 @@ def main():
                 del writes[:]
                 g.generate(Path(out_root))
                 shutil.rmtree(edit)
+            elif mode == "symlinked-roots":
+                # both roots reached through symbolic links (a checkout under a linked directory)
+                link_in, link_out = xml_root + ".link", out_root + ".link"
+                for target, link in ((xml_root, link_in), (os.path.dirname(out_root), link_out)):
+                    if os.path.lexists(link):
+                        os.remove(link)
+                    os.symlink(target, link)
+                try:
+                    ProtocolCodeGenerator(Path(link_in)).generate(Path(os.path.join(link_out, os.path.basename(out_root))))
+                finally:
+                    os.remove(link_in)
+                    os.remove(link_out)
             elif mode == "relative-roots":
                 # both roots spelled relative to the working directory
                 os.chdir(os.path.dirname(xml_root))
